@@ -16,6 +16,9 @@ EXTENDS Integers, Sequences, FiniteSets, TLC, Json, IOUtils, SequencesExt
 
 Policies == {"first", "roundRobin", "random", "leastconn"}
 Burst == 6
+(* "promptly": an answer that takes as long as one health-check time-out of the upstream library (3 s) is not prompt;
+   the threshold leaves half a second below it and is compared with the time one in-process request took *)
+PromptMs == 2500
 
 RangeS(s) == {s[i] : i \in DOMAIN s}
 
@@ -40,6 +43,12 @@ AbortCases ==
   UNION {{[n |-> n, backup |-> [i \in 1..n |-> m[i]], policy |-> "roundRobin", toggles |-> ts, ticker |-> FALSE, down0 |-> <<>>, abort |-> TRUE] :
             m \in Mixes(n), ts \in {t \in Toggles(n) : Len(t) = 3}} : n \in 1..2}
 
+(* hang: the upstream has a health-check path, and a server that is "down" does not refuse connections -- it accepts
+   them and never answers (a stuck process, a paused container); the health checks time out instead of failing at once *)
+HangCases ==
+  {[n |-> 2, backup |-> <<FALSE, FALSE>>, policy |-> "roundRobin", toggles |-> <<1, 2, 1>>, ticker |-> FALSE, down0 |-> <<>>, abort |-> FALSE, hang |-> TRUE],
+   [n |-> 1, backup |-> <<FALSE>>, policy |-> "first", toggles |-> <<1, 1>>, ticker |-> FALSE, down0 |-> <<>>, abort |-> FALSE, hang |-> TRUE]}
+
 TickerCases ==
   {[n |-> 2, backup |-> <<FALSE, FALSE>>, policy |-> "roundRobin", toggles |-> <<1>>, ticker |-> TRUE, down0 |-> <<>>, abort |-> FALSE]}
 
@@ -47,7 +56,7 @@ VARIABLES l, j, up
 
 EmitInit ==
   /\ l = 0 /\ j = 0 /\ up = {}
-  /\ LET Q == SetToSeq(Cases) \o SetToSeq(DownCases) \o SetToSeq(AbortCases) \o SetToSeq(TickerCases) IN ndJsonSerialize(IOEnv.OUT, Q)
+  /\ LET Q == SetToSeq(Cases) \o SetToSeq(DownCases) \o SetToSeq(AbortCases) \o SetToSeq(TickerCases) \o SetToSeq(HangCases) IN ndJsonSerialize(IOEnv.OUT, Q)
 EmitNext == FALSE /\ UNCHANGED <<l, j, up>>
 
 (* observation: case; bursts: one per "req" event, in order: sequence of [server (0: none), status] *)
@@ -63,6 +72,7 @@ BurstOk(c, U, b) ==
   /\ Len(b) = Burst
   /\ \A i \in DOMAIN b :
         IF E = {} THEN b[i].server = 0 /\ b[i].status >= 500               \* nobody healthy: 5xx, nothing forwarded
+                       /\ ("ms" \in DOMAIN b[i] => b[i].ms < PromptMs)       \* ... promptly
         ELSE b[i].server \in E /\ b[i].status = 200                         \* only healthy ones, backups last
   /\ (c.policy = "roundRobin" /\ E # {}) =>
         \A s, t \in E : Count(b, s) - Count(b, t) \in {-1, 0, 1}           \* evenly shared
